@@ -99,9 +99,37 @@ def bounded_scan_total(tier, seed):
             "failures": failures, "samples": [{"scan": corp[1][1].hex()}]}
 
 
+def bounded_known_limits(tier, seed):
+    """Two inputs on which the unchanged tree is known not to be total (recorded findings): a key-guessing blow-up in the
+    vendored xortool and CPython's recursion limit on very deep trees.  Kept as a stand-in so that the findings stay visible."""
+    from props import fuzz
+
+    cases = [
+        ("xortool", (", ".join(str(i % 256) for i in range(512)) + " -bxor $k").encode()),
+        ("deep", b"createobject(" * 1200 + b")" * 1200),
+    ]
+    failures = []
+    for name, data in cases:
+        from multidecoder.multidecoder import Multidecoder
+
+        try:
+            tree = fuzz.with_timeout(6, Multidecoder().scan, data)
+            tree.flatten()
+            list(tree)
+        except fuzz.Timeout:
+            failures.append({"id": f"limit-{name}: scan does not terminate within 6 s", "function": "multidecoder.multidecoder.Multidecoder.scan", "obligation": "bounded/total", "case": {"limit": name}, "observed": f"{name}: no result within 6 s"})
+        except RecursionError:
+            failures.append({"id": f"limit-{name}: RecursionError in a read-only view", "function": "multidecoder.node.Node.flatten", "obligation": "bounded/total", "case": {"limit": name}, "observed": f"{name}: RecursionError"})
+    return {"evaluations": len(cases), "distinct_nontrivial": len(cases), "scope": "two hand-written inputs", "failures": failures, "samples": [{"limit": "xortool"}]}
+
+
 def replay(case):
     from props import fuzz
 
+    if "limit" in case:
+        r = bounded_known_limits("quick", 0)
+        bad = [f for f in r["failures"] if f["case"] == case]
+        return (not bad, bad[0]["observed"] if bad else "completes")
     if "decoder" in case:
         import importlib
 
